@@ -229,6 +229,8 @@ def _eq_any(item, keys):
 
 
 def format_value(interp, val, spec, conversion):
+    if spec == "" and conversion == -1:
+        return FStr([val])  # plain {value}: the part *is* the value
     return FStr([("fmt", val, spec, conversion)])
 
 
@@ -922,6 +924,13 @@ def seq_method(interp, obj, name, args, kwargs):
             other = other.expand()
         concat(interp, obj, other, inplace=True)
         return None
+    if name == "pop" and isinstance(obj, SList) and not args:
+        if not ctx.branch(s.n > 0):
+            raise PyRaise(IndexError("pop from empty list"))
+        last = s.at(z3.simplify(s.n - 1))
+        old = s
+        obj.seq = SSeq(z3.simplify(s.n - 1), lambda i: old.at(i), list)
+        return last
     if name == "copy":
         return SList(s)
     if name == "count":
